@@ -884,6 +884,8 @@ func (c *Context) Log10(d, x *Decimal) (Condition, error) {
 		return 0, err
 	}
 	res |= qr
+	// nc carries BaseContext's exponent limits; apply the caller's.
+	res |= c.round(d, d)
 	return c.goError(res)
 }
 
